@@ -215,6 +215,21 @@ def option_oracle(st, a, md):
     return bad
 
 
+REL = 4000000000000000000     # the driver's sentinel for "the release time" (see driver.ml, Model.restamp)
+
+
+def same_entries(model_l, real_l, now):
+    """`pack:time` lists of the model and of the real index.  Where the model says REL (a delete mark re-stamped when
+    the index is finalized: the source holds the marks back) the real time may be any time >= the run time."""
+    m = dict(e.split(":") for e in model_l); r = dict(e.split(":") for e in real_l)
+    if len(m) != len(model_l) or len(r) != len(real_l) or set(m) != set(r): return False
+    for k, t in m.items():
+        if t == str(REL):
+            if r[k] == "n" or int(r[k]) < now: return False
+        elif r[k] != t: return False
+    return True
+
+
 def exec_oracle(st, a, x):
     """The statements of prune_keeps_used / only_unused_removed / fresh_marks_carry_run_time /
     kept_marks_keep_their_time evaluated on what the REAL executor wrote (exec mode of the harness)."""
@@ -236,13 +251,15 @@ def exec_oracle(st, a, x):
         elif todo == "MarkDelete" and not inst:
             if pid in xrm: bad.append("pack %d was removed by the run that only marks it" % pid)
             if str(pid) not in xd: bad.append("pack %d decided MarkDelete has no entry in packs_to_delete afterwards (it can never be brought back)" % pid)
-            elif xd[str(pid)] != str(now): bad.append("pack %d is newly marked with time %s instead of the time of the run %d (keep-delete is counted from somewhere else)" % (pid, xd[str(pid)], now))
+            elif xd[str(pid)] == "n" or int(xd[str(pid)]) < now: bad.append("pack %d is newly marked with time %s, EARLIER than the time of the run %d that marks it (keep-delete would not be counted from the marking)" % (pid, xd[str(pid)], now))
         elif todo in ("KeepMarked", "KeepMarkedAndCorrect") and not inst:
             if pid in xrm: bad.append("pack %d decided %s was removed" % (pid, todo))
             if touched:
-                want = str(p["time"]) if p["time"] is not None else str(now)
                 if str(pid) not in xd: bad.append("pack %d decided %s has no entry in packs_to_delete afterwards" % (pid, todo))
-                elif xd[str(pid)] != want: bad.append("pack %d stays marked but its mark time changed from %s to %s" % (pid, want, xd[str(pid)]))
+                elif p["time"] is None or p["time"] == now:
+                    # no time (healed with the time of this run) or, to the tick, the plan time: any time >= the run
+                    if xd[str(pid)] == "n" or int(xd[str(pid)]) < now: bad.append("pack %d stays marked with a time earlier than this run although it had none" % pid)
+                elif xd[str(pid)] != str(p["time"]): bad.append("pack %d stays marked but its mark time changed from %s to %s" % (pid, p["time"], xd[str(pid)]))
     if not inst:
         deleted = {int(d.split(":")[1]) for d in a["d"] if d.split(":")[3] == "Delete"}
         for pid in xrm - deleted: bad.append("pack %d removed without instant-delete and without a Delete decision" % pid)
@@ -369,6 +386,7 @@ def run(ctx):
         r["ok"] = False
         r["failures"].append("fact extraction from prune.rs failed: " + extract_fail)
     cov["typed_keys_in_source"] = bool(meta and meta.get("typed_keys"))
+    cov["delete_marks_restamped_at_release_in_source"] = bool(meta and meta.get("marks_restamped"))
     cov["trusted_base"] += ["props/C02/extract.py (translator of the decide_packs match, the prune_repository to_do match, check_existing_packs and filter_index_files predicates into Extracted.v)",
                             "hook crates/core/src/verif_hooks/c02_planner.rs (calls the planner steps in the order of PrunePlan::from_prune_options with a supplied clock)"]
     ctx.assumptions += [
@@ -472,7 +490,7 @@ def run(ctx):
             if bad: xviol.append((line, bad, io)); continue
             if mpart.strip() != ipart.strip(): continue            # planner mismatch: reported by stage 4
             md = parse_out("ok " + diag)
-            same = (sorted(md.get("newpacks", [])) == sorted(x.get("xp", [])) and sorted(md.get("newdel", [])) == sorted(x.get("xd", []))
+            same = (sorted(md.get("newpacks", [])) == sorted(x.get("xp", [])) and same_entries(md.get("newdel", []), x.get("xd", []), st["now"])
                     and sorted(set(md.get("removed", []))) == sorted(x.get("xrm", [])) and md.get("kept_files") == x.get("xkept"))
             if not same: xmism.append({"case": line, "impl": xs, "model": diag})
     cov.update({"executor_cases_run_on_real_prune_repository": xrun, "executor_model_mismatches": len(xmism),
@@ -512,7 +530,7 @@ def run(ctx):
             if any(d.endswith(":Repack") for d in x["d"]): trepack += 1
             old = lambda l_: sorted(e for e in l_ if int(e.split(":")[0]) < 9000000)
             same = (a["d"] == x["d"] and a["rw"] == x["rw"] and old(md.get("newpacks", [])) == sorted(x.get("xp", []))
-                    and sorted(md.get("newdel", [])) == sorted(x.get("xd", []))
+                    and same_entries(md.get("newdel", []), x.get("xd", []), int(case.split()[0]))
                     and sorted(set(md.get("removed", [])), key=int) == x.get("xrm", [])
                     and sorted("%s:%s" % (c.split(":")[2], c.split(":")[1]) for c in md.get("copied", [])) == sorted(x.get("xnew", []))
                     and md.get("kept_files") == x.get("xkept"))
